@@ -235,6 +235,11 @@ func genC06(t *rapid.T) *Scenario {
 		tick = true
 	case "take":
 		sc.N = rapid.IntRange(0, 8).Draw(t, "n")
+	case "filter", "takeWhile", "partition":
+		sc.Mode = "pure"
+		if rapid.IntRange(0, 3).Draw(t, "errPred") == 0 {
+			sc.Mode = rapid.SampledFrom([]string{"lift", "try"}).Draw(t, "mode") // the predicate returns errors for the Fail values
+		}
 	default:
 		if sc.Mode == "" {
 			sc.Mode = "pure"
